@@ -2,7 +2,7 @@
 # tools/tryneutral.sh <dir with patch.diff of a BEHAVIOUR-PRESERVING refactoring> [PROP...]
 # Applies it to a scratch worktree of /repo's HEAD, runs the test suite and the quick checks (all 20 by default) with
 # VERIF_REPO=<scratch>: every check must exit 0 (neither VIOLATION nor INCONCLUSIVE) - the "no alarm on code where the property holds" side.
-D="$1"; shift
+D="$(cd "$1" && pwd)"; shift
 PROPS="$@"; [ -z "$PROPS" ] && PROPS="C01 C02 C03 C04 C05 C06 C07 C08 C09 C10 C11 C12 C13 C14 C15 C16 C17 C18 C19 C20"
 W=/dev/shm/neutraltry-$$
 git -C /repo worktree add -q --detach "$W" ${BASE:-HEAD} || exit 2
